@@ -48,9 +48,17 @@ def _post(helper, i):
     return np.array(rec[1]), np.array(rec[2]), np.array(raw), np.array(ll)
 
 
-def _baseline(cfgname):
+ROWS32 = ROWS.astype(np.float32).astype(np.float64)  # the values a library stored in single precision really holds
+
+
+def _baseline(cfgname, rows=None):
     """values of every row evaluated alone on a fresh helper"""
     base = {"ll": [], "post": [], "tlw": []}
+    if rows is not None:
+        for i in range(len(rows)):
+            h, _ = _helper(cfgname)
+            base["ll"].append(float(np.array(h.batch_marginal_ln_likelihood(np.ascontiguousarray(rows[i : i + 1])))[0]))
+        return base
     for i in range(len(ROWS)):
         h, _ = _helper(cfgname)
         base["ll"].append(float(np.array(h.batch_marginal_ln_likelihood(np.ascontiguousarray(ROWS[i : i + 1])))[0]))
@@ -124,6 +132,18 @@ def exec_real(case, part):
     samples = pb.make_samples(ROWS)
     base = _BASE.setdefault(case["config"], _baseline(case["config"]))
     want = np.array(base["ll"])
+    if case.get("f32"):
+        # a library whose columns are stored in single precision (a valid sample table): every path must evaluate the values it
+        # really holds
+        import astropy.units as u
+        import thejoker as tj2
+
+        samples = tj2.JokerSamples()
+        for k, (nm, un) in enumerate(zip(["P", "e", "omega", "M0", "s"], [u.day, u.one, u.rad, u.rad, u.km / u.s])):
+            samples[nm] = u.Quantity(ROWS[:, k].astype(np.float32), un, dtype=np.float32)
+        assert samples["P"].dtype == np.float32
+        base = _BASE.setdefault((case["config"], "f32"), _baseline(case["config"], ROWS32))
+        want = np.array(base["ll"])
     scratch = seams.fresh_dir("c05")
     if case["pool"][0] == "serial":
         pool = schwimmbad.SerialPool()
@@ -362,6 +382,8 @@ def build(quick):
                         real.append(dict(kind="real", config=cfg, api=api, path=path, n_batches=nb, pool=["serial"], foreign_pack=True))
                     if api == "rej_rand":
                         real.append(dict(kind="real", config=cfg, api=api, path=path, n_batches=nb, pool=["serial"], n_prior=N - 2))
+                    if api == "mll" and nb in (None, 3):
+                        real.append(dict(kind="real", config=cfg, api=api, path=path, n_batches=nb, pool=["serial"], f32=True))
         for path in ("inmem", "obj", "file"):
             for init, growth in ((1, 2), (2, 2), (2, 128), (4, 2), (N, 2)):
                 for nb in ((None,) if path == "inmem" else (None, 2)):
